@@ -322,6 +322,20 @@ def gen_case(rng, thorough):
             bodies.append(script['body'])
             script = dict(script, body=script['body'].hex())
         calls.append({'op': op, 'aseed': aseed, 'special': special, 'script': script, 'tag': tag})
+    # the REQUEST bytes matter as much as the replies for integer detail levels (stage_http_request): a dry run of the
+    # calls on a bare connection tells what pywbem will send
+    req_bodies = []
+    try:
+        probe = execute({'pull': None, 'creds': 'none', 'stats': False, 'debug': False, 'log': None, 'tcr': None,
+                         'calls': calls}, False)
+        req_bodies = [c['sent_body'] for c in probe['calls'] if isinstance(c['sent_body'], bytes)]
+    except Exception:  # noqa   the probe is only a hint for the generator
+        req_bodies = []
+    if req_bodies and rng.random() < 0.5:
+        nonascii = [b for b in req_bodies if multibyte_positions(b)]
+        bodies = (nonascii or req_bodies) if rng.random() < 0.7 else bodies + req_bodies
+    else:
+        bodies = bodies + req_bodies
     log = None
     if rng.random() < 0.8:
         n = rng.choice([1, 1, 1, 2])
